@@ -16,6 +16,7 @@ package ggql
 
 import (
 	"errors"
+	"reflect"
 	"unsafe"
 )
 
@@ -25,7 +26,20 @@ import (
 // nil we ignore the type component and just check if the value component is
 // set to 0.
 func IsNil(v interface{}) bool {
-	return (*[2]uintptr)(unsafe.Pointer(&v))[1] == 0
+	if (*[2]uintptr)(unsafe.Pointer(&v))[1] != 0 {
+		return false
+	}
+	if v == nil {
+		return true
+	}
+	// A struct or an array that consists of one pointer is kept in the
+	// value component as that pointer. It is a value even if the pointer is
+	// nil.
+	switch reflect.TypeOf(v).Kind() {
+	case reflect.Struct, reflect.Array:
+		return false
+	}
+	return true
 }
 
 // BaseType returns the base type. List and NonNull return their Base. The
